@@ -256,7 +256,8 @@ def execute(sc, ctx):
         errors.append(args)
 
     idx.onerror = lambda entry, exc: errors.append(("load", entry.key if entry else None, repr(exc)))
-    has_dangling = "dangling" in sc.get("prior_kinds", {}).values()
+    # a link into the cache dangles too once the scenario evicts its object
+    has_dangling = bool(sc.get("prior_kinds"))
 
     def build_old():
         """The index of the workspace as it is.  Two routes: index.build + save.md5, or (as DVC's
